@@ -60,6 +60,10 @@ def shapes(tier):
     for kind in ('CharSubstring', 'ByteSubstring'):
         for text in (['ab c', 'ab c'], ['a bc', 'abc'], ['ab', 'a b']) if tier == 'quick' else (['ab c', 'ab c'], ['a bc', 'abc'], ['ab', 'a b'], ['ab cd', 'abcd'], ['a', 'a']):
             out.append({'part': 'substring', 'kind': kind, 'input': text[0], 'target': text[1]})
+    # task functions: two independently built pipeline instances (another rank, a restart, the validation loader) must
+    # process the same item identically
+    for task in ('Classification', 'WhitespaceCorrection'):
+        out.append({'part': 'task', 'task': task})
     out.sort(key=lambda s: -(sum(s.get('lengths', [0])) * (s.get('world', 1) + 1)))
     return out
 
@@ -128,7 +132,39 @@ def _u65(x):
     return z3.ZeroExt(4, x.z()) if not isinstance(x.v, int) else z3.BitVecVal(x.v, 68)
 
 
+CLASSES = ['neg', 'neu', 'pos']
+TASK_CLAIM = 'independently built pipeline instances process the same item identically (task function)'
+
+
+def run_task(ctx, shape, opts):
+    from harnesses.tok_common import special_config
+    from harnesses.c14 import mk_enum
+    m = ctx.m
+    tk = mk_enum(m, 'TokenizeConfig', 'Byte', [Struct('ByteTokenizerConfig', [False, NONE(), mk_enum(m, 'ByteGroups', 'Bytes'),
+                                                                            mk_enum(m, 'GroupAggregation', 'Mean')],
+                                                      ['use_graphemes', 'pad_to_multiple_of', 'groups', 'aggregation'])])
+    pick = ctx.in_choice('class', len(CLASSES))
+
+    def instance():
+        cfg = Struct('TokenizerConfig', [tk, special_config(m, 'minimal')], ['tokenize', 'special'])
+        if shape['task'] == 'Classification':
+            t = mk_enum(m, 'TrainTaskConfig', 'Classification', [cfg, True, VecObj([m.new_string(c) for c in CLASSES])])
+            item = Struct('TrainData', [m.new_string('ab'), m.new_string(CLASSES[pick])], ['input', 'target'])
+        else:
+            t = mk_enum(m, 'TrainTaskConfig', 'WhitespaceCorrection', [False, cfg])
+            item = Struct('TrainData', [m.new_string('a b'), m.new_string('ab')], ['input', 'target'])
+        f = m.call('train_task', t)
+        return m.call_value(f, [ref_to(item)])
+    r1, r2 = instance(), instance()
+    ctx.require(r1.variant == 'Ok' and r2.variant == 'Ok', 'the task function succeeds')
+    ctx.out('task', to_py(ctx, r1))
+    ctx.require(to_py(ctx, r1) == to_py(ctx, r2), TASK_CLAIM)
+    ctx.sample = {'task': shape['task'], 'class': pick}
+
+
 def run(ctx, shape, opts):
+    if shape['part'] == 'task':
+        return run_task(ctx, shape, opts)
     if shape['part'] == 'switch':
         return run_switch(ctx, shape, opts)
     if shape['part'] == 'substring':
@@ -371,6 +407,21 @@ def native_outputs(native, shape, inputs):
 
 
 def concrete_check(native, inputs, shape):
+    if shape['part'] == 'task':
+        if shape['task'] == 'Classification':
+            kw = dict(task='Classification', classes=CLASSES, input=[0x61, 0x62], target=[ord(c) for c in CLASSES[inputs.get('class', 0)]])
+        else:
+            kw = dict(task='WhitespaceCorrection', classes=[], input=[0x61, 0x20, 0x62], target=[0x61, 0x62])
+        failed = set()
+        for cls in (range(len(CLASSES)) if shape['task'] == 'Classification' else [0]):
+            if shape['task'] == 'Classification':
+                kw['target'] = [ord(c) for c in CLASSES[cls]]
+            k, v = native_ok(native.call('task_consistency', trials=16, **kw))
+            if k != 'ok':
+                return ['no panic']
+            if len(v) != 1 or v[0].startswith('Err'):
+                failed.add(TASK_CLAIM if len(v) != 1 else 'the task function succeeds')
+        return sorted(failed)
     if shape['part'] != 'loader':
         # native oracle for the seed discipline of the combinators: the same (item, info) processed repeatedly must give
         # one result and hand the info through; which term seeds the generator is decided symbolically only
